@@ -18,14 +18,14 @@ import (
 
 // Schedule policies (DESIGN 3.2).
 const (
-	PolRandom      = iota // uniform among runnable tasks at every step
-	PolSticky             // keep running the last task with high probability
-	PolBgFirst            // background tasks run to completion in spawn order before the client continues (sequential)
-	PolHoldBg             // background tasks are held until the client is idle, then released in a chosen order
-	PolPCT                // random priorities with a few change points
-	PolStarve             // one chosen background task runs only when nothing else can
-	PolBgReverse          // like BgFirst but the youngest task first
-	PolStallPublish       // random, but some tasks stall right before they publish (slow client write) until nothing else can run
+	PolRandom       = iota // uniform among runnable tasks at every step
+	PolSticky              // keep running the last task with high probability
+	PolBgFirst             // background tasks run to completion in spawn order before the client continues (sequential)
+	PolHoldBg              // background tasks are held until the client is idle, then released in a chosen order
+	PolPCT                 // random priorities with a few change points
+	PolStarve              // one chosen background task runs only when nothing else can
+	PolBgReverse           // like BgFirst but the youngest task first
+	PolStallPublish        // random, but some tasks stall right before they publish (slow client write) until nothing else can run
 	numPolicies
 )
 
@@ -63,29 +63,29 @@ type Driver struct {
 	Policy int
 	Name   string
 
-	MapSalt uint64
-	mapCalls map[string]int
+	MapSalt     uint64
+	mapCalls    map[string]int
 	MapPermuted int
 
-	last     *simrt.Task
-	prio     map[int]int
-	pctLeft  int
-	starve   int
-	stall    map[int]int // PolStallPublish: task id -> 1 stalls at its publish point, 2 does not
+	last       *simrt.Task
+	prio       map[int]int
+	pctLeft    int
+	starve     int
+	stall      map[int]int // PolStallPublish: task id -> 1 stalls at its publish point, 2 does not
 	StepBudget int
 
-	MaxLive      int
-	TimerJumps   int
-	Preemptions  int
-	Deadlock     string
-	Livelock     bool
-	outSeen      int
+	MaxLive     int
+	TimerJumps  int
+	Preemptions int
+	Deadlock    string
+	Livelock    bool
+	outSeen     int
 	// OnMsg is called for every message received from the server, in order.
 	OnMsg func(m *simwire.Msg)
 	// AutoConfig answers workspace/configuration requests: nil = never answer.
-	quiet bool
+	quiet   bool
 	waiting bool // a client request is waiting for its response
-	held  map[int]bool
+	held    map[int]bool
 }
 
 // activate routes sim calls to this driver's scheduler and environment.
@@ -423,9 +423,9 @@ func (d *Driver) Teardown() {
 
 type J = map[string]any
 
-func pos(line, ch int) J           { return J{"line": line, "character": ch} }
-func rng(l1, c1, l2, c2 int) J     { return J{"start": pos(l1, c1), "end": pos(l2, c2)} }
-func docID(uri string) J           { return J{"uri": uri} }
+func pos(line, ch int) J       { return J{"line": line, "character": ch} }
+func rng(l1, c1, l2, c2 int) J { return J{"start": pos(l1, c1), "end": pos(l2, c2)} }
+func docID(uri string) J       { return J{"uri": uri} }
 func canon(raw json.RawMessage) string {
 	if len(raw) == 0 {
 		return "null"
